@@ -363,6 +363,17 @@ func VerifC04Sent(shape, n int) {
 		valid, _, _ := verifCypherBody(raw)
 		verifrt.Assume(valid)
 		q, err = verifNativeParse(verifLitShapes[shape], map[string]string{verifMarker: raw})
+	} else if shape >= 20 {
+		// a back-ticked alias / variable / kind name (shape - 20 of verifNameShapes)
+		raw := verifrt.NondetString("name", n)
+		for i := 0; i < len(raw); i++ {
+			verifrt.Assume(raw[i] != 0)
+			if raw[i] == '`' {
+				verifrt.Assume(i+1 < len(raw) && raw[i+1] == '`')
+				i++
+			}
+		}
+		q, err = verifNativeParse(verifNameShapes[shape-20], map[string]string{verifMarker: raw})
 	} else {
 		// a back-ticked property key instead (shape - len(verifLitShapes) of verifKeyShapes)
 		key := verifrt.NondetString("key", n)
